@@ -2884,7 +2884,9 @@ def transform_compressible(items, constants, labels):
             # (the same goes for the position: items in front may still shrink,
             # so %offset of anything is off limits for them as well)
             if name in ['c.j', 'c.jal', 'c.beqz', 'c.bnez']:
-                pred_env = env
+                # (labels only: a constant as target is an absolute address
+                # that gets further away when the code in front shrinks)
+                pred_env = labels
                 pred_position = position
             else:
                 pred_env = constants
